@@ -80,6 +80,24 @@ def rawOK (s : State) : RawOp → Bool
 def runRaw (ops : List RawOp) (s : State) : State :=
   ops.foldl (fun s op => if rawOK s op then (apply s op).1 else s) s
 
+/-- the error exits that only an inconsistent index can trigger -/
+def Err.internal : Err → Bool
+  | .keyError => true
+  | .lookupError => true
+  | _ => false
+
+/-- the reference fields of a class are distinct (`get_object_reference_fields()` is a set) -/
+def ClsOK (c : Cls) : Prop := c.refIdxs.Nodup
+
+instance (c : Cls) : Decidable (ClsOK c) := by unfold ClsOK; infer_instance
+
+def ClassesOK (s : State) : Prop := ∀ id c, mget s.idToType id = some c → ClsOK c
+
+/-- the class an operation brings into the schema is well-formed -/
+def opClsOK : RawOp → Prop
+  | .addRaw _ c _ => ClsOK c
+  | _ => True
+
 /-- every schema value a caller has seen along a raw history (the initial one first) -/
 def versions : List RawOp → State → List State
   | [], s => [s]
